@@ -298,10 +298,23 @@ func (f *fetcher) getFromCacheOrFetch(req *http.Request, key cache.CacheKey, cli
 	return fetch, nil
 }
 
+func requestHasBody(req *http.Request) bool {
+	return req.Body != nil && req.Body != http.NoBody && req.ContentLength != 0
+}
+
 // Will deduplicate cachable requests and otherwise return the bypassed upstream response.
 // IMPORTANT: Remember to close data streams!
 func (f *fetcher) dedupFetch(req *http.Request, key cache.CacheKey, clientHd *headers.HeaderDirectives) (fetched fetchResult, err error) {
 	slog.Debug("Attempting to dedup fetch...")
+
+	if requestHasBody(req) {
+		// A request body can be sent upstream only once. Such a request is passed straight through: it is
+		// not shared with other clients, and nothing is fetched a second time on its behalf (after an
+		// answer that is not kept, a failed store, a 416), which would go out without the body.
+		slog.Debug("Request carries a body, fetching upstream...")
+		metrics.Global.Requests.NonCoalescedRequests.Increment()
+		return f.fetchDirectlyFromUpstream(req)
+	}
 
 	shouldCoalesce := !clientHd.Range.IsPresent() && req.Method == http.MethodGet
 	if !shouldCoalesce {
